@@ -391,7 +391,7 @@ func (bc *boundsCtx) term(v ssa.Value) lterm {
 					return
 				}
 				nret++
-				bo, ok := stripNoopConv(r.Results[0]).(*ssa.BinOp)
+				bo, ok := stripNoopConv(returnedValues(r)[0]).(*ssa.BinOp)
 				if !ok || bo.Op != token.REM || !isUnsigned(bo.X.Type()) {
 					okAll = false
 					return
@@ -1141,7 +1141,7 @@ func (bc *boundsCtx) validatorFacts(errV ssa.Value) []condFact {
 				if !ok || len(r.Results) == 0 {
 					return
 				}
-				if !isNilConst(r.Results[len(r.Results)-1]) {
+				if !isNilConst(returnedValues(r)[len(r.Results)-1]) {
 					return
 				}
 				nret++
